@@ -1008,11 +1008,17 @@ class TokenizerCore:
         if is_underscore_separated:
             number_text = number_text.replace("_", "")
 
+        # Normalize inputs such as 123L to 123::BIGINT so that they're parsed as casts: the number ends
+        # where the suffix starts, the synthesised `::` is empty and the type spans the suffix
+        if numeric_type:
+            self._advance(-len(numeric_literal))
+
         self._add(TokenType.NUMBER, number_text)
 
-        # Normalize inputs such as 123L to 123::BIGINT so that they're parsed as casts
         if numeric_type:
+            self._start = self._current
             self._add(TokenType.DCOLON, "::")
+            self._advance(len(numeric_literal))
             self._add(numeric_type, numeric_literal)
 
     def _scan_bits(self) -> None:
